@@ -6,6 +6,10 @@ package jd
 // This file contains only comments: it cannot change the behaviour of the
 // package under any build tag. Syntax: see /verif/DESIGN.md section 5.
 
+// C13 (no panic): every function of the package is verified for safety obligations
+// (index, slice, make, type assertion, nil dereference, explicit panic), with or without contract.
+//@ sweep C13
+
 //@ contract JsonNode.patch
 //@   requires validNode(self) && validPath(pathAhead) && validStrategy(strategy)
 //@   requires validNodes(before) && validNodes(oldValues) && validNodes(newValues) && validNodes(after)
@@ -112,12 +116,14 @@ package jd
 //@   carries C13 C03 C01
 
 //@ contract JsonNode.diff
+//@   fresh ret0
 //@   requires validNode(self) && validNode(n) && validPath(p) && validStrategy(strategy)
 //@   ensures validDiff(ret0)
 //@   ensures [C05] (len(ret0) == 0) == specEq(self, n, options)
 //@   carries C13 C05 C07 C01 C15
 
 //@ contract JsonNode.Diff
+//@   fresh ret0
 //@   requires validNode(self) && validNode(n)
 //@   ensures validDiff(ret0)
 //@   ensures [C05] (len(ret0) == 0) == specEq(self, n, options)
@@ -132,12 +138,14 @@ package jd
 //@   carries C13 C15
 
 //@ contract diff
+//@   fresh ret0
 //@   requires validNode(a) && validNode(b) && validPath(p) && validStrategy(strategy) && !specIsContainer(a)
 //@   ensures validDiff(ret0)
 //@   ensures [C05] (len(ret0) == 0) == specEq(a, b, options)
 //@   carries C13 C05 C07 C01
 
 //@ contract nodeList
+//@   fresh ret0
 //@   requires validNodes(n)
 //@   ensures validNodes(ret0)
 //@   ensures len(n) == 0 || isVoid(n[0]) ==> len(ret0) == 0
@@ -249,3 +257,173 @@ package jd
 //@   ensures_bounded ret0 == b.Equals(a, options...)
 //@   ensures_bounded a.Equals(a, options...)
 //@   carries C04
+
+// ---------------------------------------------------------------------
+// C13 sweep: helpers that are only ever inlined into their callers (and verified there under the
+// caller's precondition) are not verified standalone.
+//@ nosweep (Path).next unexported helper, inlined at every call site
+//@ nosweep setPatchDiffElementContext writes through a pointer parameter; inlined into readPatchDiffElement
+//@ nosweep init package initialisation (assigns package-level variables only)
+//@ nosweep colorStringMarshal colour rendering slices the output of json.Marshal byte-wise (string reasoning outside the subset); bounded under C02
+
+//@ contract colorStringMarshal
+//@   trusted
+
+//@ contract (hashCodes).Less
+//@   requires 0 <= i && i < len(h) && 0 <= j && j < len(h)
+//@ contract (hashCodes).Swap
+//@   requires 0 <= i && i < len(h) && 0 <= j && j < len(h)
+//@   modifies h
+//@ contract (hashCodes).Len
+//@   ensures ret0 == len(h)
+//@ contract (hashCodes).combine
+//@   modifies h
+
+//@ contract (jsonList).diffDifferentTypes
+//@   fresh ret0
+//@   requires validNodes(a) && validNode(n) && validPath(path) && validStrategy(strategy)
+//@   ensures validDiff(ret0) && len(ret0) == 1
+//@   carries C05 C07 C01
+
+//@ contract (jsonList).diffMergePatchStrategy
+//@   fresh ret0
+//@   requires validNodes(a) && validNodes(b) && validPath(path)
+//@   ensures validDiff(ret0)
+//@   ensures [C05] (len(ret0) == 0) == specEqList(a, b, options)
+//@   carries C05 C07 C01 C11
+
+//@ contract (jsonObject).MarshalJSON
+//@   requires validObject(o)
+
+//@ contract (jsonObject).ident
+//@   requires validObject(o)
+//@ contract (jsonObject).pathIdent
+//@   requires validObject(o)
+//@   loop "range keys" invariant forallAnyKey(id, func(k string) bool { return isJsonNode(id[k]) && validAny(id[k]) })
+
+//@ contract patchErrExpectColl
+//@   requires validNode(n)
+//@   ensures ret1 != nil
+//@ contract patchErrExpectValue
+//@   requires validNode(want) && validNode(found)
+//@   ensures ret1 != nil
+//@ contract patchErrNonSetDiff
+//@   ensures ret1 != nil
+//@ contract patchErrMergeWithOldValue
+//@   ensures ret1 != nil
+//@ contract patchErrUnsupportedPatchStrategy
+//@   ensures ret1 != nil
+
+//@ contract NewJsonNode
+//@   requires validAny(n)
+//@   ensures ret1 == nil ==> validNode(ret0)
+//@   ensures specAllNodes(n) || specScalarAny(n) ==> ret1 == nil
+//@   loop "range t" invariant validObject(m)
+//@   loop "range t #2" invariant validObject(m)
+//@   loop "range t #3" invariant forallInt(0, idx, func(i int) bool { return validNode(l[i]) })
+//@   carries C16 C13
+
+//@ contract validYaml
+//@   opaque
+//@   trusted
+//@ contract validAny
+//@   opaque
+//@   axiom
+
+// ---------------------------------------------------------------------
+// Readers: arbitrary text in, a valid value or an error out (C13).
+//@ nosweep unmarshal takes the decoder as a function value; inlined into ReadJsonString / ReadYamlString / Read*File with the concrete decoder
+
+//@ contract ReadJsonString
+//@   ensures ret1 == nil ==> validNode(ret0)
+//@   carries C13 C16
+//@ contract ReadYamlString
+//@   ensures ret1 == nil ==> validNode(ret0)
+//@   carries C13 C16
+//@ contract ReadJsonFile
+//@   ensures ret1 == nil ==> validNode(ret0)
+//@   carries C13 C16
+//@ contract ReadYamlFile
+//@   ensures ret1 == nil ==> validNode(ret0)
+//@   carries C13 C16
+
+//@ contract NewPath
+//@   requires n == nil || validNode(n)
+//@   ensures ret1 == nil ==> validPath(ret0)
+//@   loop "range a" invariant forallInt(0, idx, func(i int) bool { return validPathElem(p[i]) })
+//@   carries C13 C02
+
+//@ contract readDiff
+//@   ensures ret1 == nil ==> validDiff(ret0)
+//@   loop "range diffLines" invariant validDiff(diff) && validHunk(de)
+//@   loop "range s" invariant true
+//@   carries C13 C02
+
+//@ contract ReadDiffString
+//@   ensures ret1 == nil ==> validDiff(ret0)
+//@   carries C13 C02
+//@ contract ReadDiffFile
+//@   ensures ret1 == nil ==> validDiff(ret0)
+//@   carries C13 C02
+
+//@ contract checkDiffElement
+//@   carries C13 C02
+
+//@ contract readMetadata
+//@   requires validNode(n)
+//@   carries C13 C02
+
+//@ contract readPointer
+//@   ensures ret1 == nil ==> validPath(ret0)
+//@   loop "range tokens" invariant forallInt(0, idx, func(i int) bool { return validNode(path[i]) })
+//@   carries C13 C10
+
+//@ contract writePointer
+//@   requires validNodes(path)
+//@   carries C13 C09
+
+//@ contract readPatchDiffElement
+//@   requires validPatchOps(patch)
+//@   ensures ret2 == nil ==> validHunk(ret0) && validPatchOps(ret1) && len(ret1) < len(patch)
+//@   carries C13 C10
+
+//@ contract ReadPatchString
+//@   ensures ret1 == nil ==> validDiff(ret0)
+//@   loop "for" invariant validDiff(diff) && validPatchOps(patch)
+//@   loop "for" decreases len(patch)
+//@   carries C13 C10
+//@ contract ReadPatchFile
+//@   ensures ret1 == nil ==> validDiff(ret0)
+//@   carries C13 C10
+
+//@ contract readMergeInto
+//@   requires validDiff(d) && validPath(p) && validNode(n)
+//@   ensures validDiff(ret0)
+//@   loop "range n" invariant forallInt(0, len(keys), func(i int) bool { return mapHas(n, keys[i]) })
+//@   loop "range keys" invariant validDiff(d)
+//@   carries C13 C12 C15
+
+//@ contract ReadMergeString
+//@   ensures ret1 == nil ==> validDiff(ret0)
+//@   carries C13 C12
+//@ contract ReadMergeFile
+//@   ensures ret1 == nil ==> validDiff(ret0)
+//@   carries C13 C12
+
+// ---------------------------------------------------------------------
+// List diff: the LCS walk.
+
+//@ contract (jsonList).diffRest
+//@   fresh ret0
+//@   requires validNodes(a) && validNodes(b) && validPath(path) && len(path) >= 1 && validNode(previous) && validStrategy(strategy)
+//@   requires len(aHashes) == len(a) && len(bHashes) == len(b)
+//@   requires specIsSubseq(commonSequence, aHashes) && specIsSubseq(commonSequence, bHashes)
+//@   ensures validDiff(ret0)
+//@   loop "for" invariant 0 <= aCursor && aCursor <= len(a) && 0 <= bCursor && bCursor <= len(b) && commonSequenceCursor == 0
+//@   loop "for" invariant specIsSubseq(commonSequence, aHashes[aCursor:]) && specIsSubseq(commonSequence, bHashes[bCursor:])
+//@   loop "for" invariant len(d) == 1 && validDiff(d)
+//@   loop "for !endB()" invariant 0 <= bCursor && bCursor <= len(b) && len(d) == 1 && validDiff(d)
+//@   loop "for !endA()" invariant 0 <= aCursor && aCursor <= len(a) && len(d) == 1 && validDiff(d)
+//@   loop "for !atCommonB()" invariant 0 <= bCursor && bCursor <= len(b) && len(d) == 1 && validDiff(d) && len(commonSequence) > 0 && specIsSubseq(commonSequence, bHashes[bCursor:])
+//@   loop "for !atCommonA()" invariant 0 <= aCursor && aCursor <= len(a) && len(d) == 1 && validDiff(d) && len(commonSequence) > 0 && specIsSubseq(commonSequence, aHashes[aCursor:])
+//@   carries C13 C06 C07 C01
